@@ -6,6 +6,7 @@ enumerates the derivation tree exhaustively, lazily forking on each consulted ch
 from __future__ import annotations
 
 import ast
+import dataclasses
 import re
 import typing
 
@@ -16,10 +17,11 @@ META = {
     "functions": ["typelib.py.future.transform", "typelib.py.future.TransformAnnotation.visit_BinOp/visit_Name/visit_Subscript/visit_Tuple",
                   "typelib.py.future._GENERICS"],
     "bounds": {
-        "quick": "every derivation of 9 productions (names, dotted names, subscripts of 12 heads, tuples, ellipsis, left-/right-nested "
+        "quick": "every derivation of 9 productions (names, dotted names, subscripts of 13 heads incl. frozenset (not rewritten), tuples, ellipsis, left-/right-nested "
                  "and parenthesised |-chains, Literal with '|' / '[' inside strings, Callable[[..], ..], Annotated, string references, "
-                 "None, and 9 non-annotation shapes: arithmetic, calls, conditional expressions) at depth 1 over a 12-leaf alphabet "
-                 "(6 leaves for the three cubic productions) and at depth 2 with operands from a 19-option core sub-grammar; 40 s each",
+                 "None, and 9 non-annotation shapes: arithmetic, calls, conditional expressions) at depth 1 over a 15-leaf alphabet "
+                 "(6 leaves for the three cubic productions) and at depth 2 with operands from a 19-option core sub-grammar; 40 s each; every documented builtin name must be rewritten in annotation inputs; "
+                 "history: any 2 of 14 prior uses of the library (references / context lookups / routines for classes named Pattern and dict, re.Pattern) then transform of 9 strings",
         "thorough": "adds the cubic productions over the full alphabet and depth 3 (budgeted, 240 s per production; not exhausted -> inconclusive)",
     },
     "assumptions": [
@@ -41,10 +43,10 @@ class C: pass
 
 NS = {"typing": typing, "t": typing, "A": A, "B": B, "C": C, "list": list, "dict": dict, "set": set, "tuple": tuple, "int": int,
       "str": str, "None": None, "Pattern": re.Pattern, "Optional": typing.Optional, "Union": typing.Union, "Literal": typing.Literal,
-      "Callable": typing.Callable, "Annotated": typing.Annotated, "type": type, "f": lambda *a, **k: ("f", a)}
+      "Callable": typing.Callable, "Annotated": typing.Annotated, "type": type, "f": lambda *a, **k: ("f", a), "frozenset": frozenset}
 
-LEAVES = ["A", "B", "int", "None", "list", "dict", "typing.List", "t.Dict", "'A'", "'A | B'", "Pattern", "..."]
-HEADS1 = ["list", "set", "typing.List", "Optional", "type", "typing.Sequence", "Pattern"]
+LEAVES = ["A", "B", "int", "None", "list", "dict", "typing.List", "t.Dict", "'A'", "'A | B'", "Pattern", "...", "frozenset", "set", "tuple"]
+HEADS1 = ["list", "set", "typing.List", "Optional", "type", "typing.Sequence", "Pattern", "frozenset"]
 HEADS2 = ["dict", "typing.Dict", "tuple", "Union", "typing.Mapping"]
 LITS = ["Literal['a|b']", "Literal['x[y]', 1]", "typing.Literal['a | b', 'c']", "Literal[1]"]
 
@@ -240,6 +242,8 @@ def check(s: str):
         return ("meaning_changed", site, _d(s, t))
     if ann and has_bitor_outside_constants(tt):
         return ("union_operator_left", site, _d(s, t))
+    if ann and any(isinstance(n, ast.Name) and n.id in REWRITABLE for n in ast.walk(tt)):
+        return ("documented_name_not_rewritten", site, _d(s, t))
     try:
         t2 = fn(t)
     except Exception as e:  # noqa: BLE001
@@ -279,6 +283,59 @@ def make_fixed(timeout):
     return Cond("fixed/examples", [("c0", int)], body, mode="E3", timeout=timeout)
 
 
+@dataclasses.dataclass
+class Pattern:  # a self-referential user class that shares its name with a rewritten builtin generic
+    sub: "typing.Optional[Pattern]" = None
+
+
+class dict_(dict):
+    pass
+
+
+dict_.__name__ = dict_.__qualname__ = "dict"
+
+
+def make_history(timeout):
+    """transform is a function of its argument alone: the rewrite table is the same after any other use of the library
+    (references to classes named like a rewritten generic, routines for re.Pattern, context lookups)."""
+    strings = ["Pattern[bytes] | None", "dict[str, Pattern[str]]", "list[int]", "set[A] | tuple[A, ...]", "tuple", "Pattern", "dict",
+               "frozenset[int] | None", "typing.Optional[list[A]]"]
+
+    def body(c0: int, c1: int, c2: int, c3: int):
+        import typelib
+        from typelib import ctx
+        from typelib.py import future, inspection, refs
+
+        triggers = [
+            lambda: refs.forwardref(re.Pattern), lambda: refs.forwardref(Pattern), lambda: refs.forwardref(dict_),
+            lambda: ctx.TypeContext().get(Pattern), lambda: ctx.TypeContext().get(re.Pattern), lambda: ctx.TypeContext().get(dict_),
+            lambda: typelib.unmarshal(Pattern, {"sub": {"sub": None}}), lambda: typelib.marshal(Pattern(Pattern())),
+            lambda: typelib.unmarshal(re.Pattern, "a+"), lambda: typelib.marshal(re.compile("a")),
+            lambda: refs.evaluate(refs.forwardref("dict[str, int]", module=__name__)), lambda: inspection.get_type_hints(Pattern),
+            lambda: typelib.unmarshal(typing.Pattern[str], "b"), lambda: typelib.unmarshal(dict_, {"a": 1}),
+        ]
+        ch = Chooser((c0, c1, c2, c3))
+        with NoTracing():
+            for _ in range(2):
+                try:
+                    triggers[ch.pick(len(triggers))]()
+                except Exception:  # noqa: BLE001, S110 - the trigger's own outcome is not the subject
+                    pass
+            s = strings[ch.pick(len(strings))]
+            reached()
+            r = check(s)
+            if r is not None:
+                return ("after_history:" + r[0], r[1], r[2])
+            future.transform.cache_clear() if hasattr(future.transform, "cache_clear") else None
+            a = future.transform(s)
+            b = getattr(future.transform, "__wrapped__", future.transform)(s)
+            if a != b:
+                return ("after_history:cached_differs", "transform", _d(s, a, b))
+        return None
+
+    return Cond("history/two_prior_uses", [(f"c{i}", int) for i in range(4)], body, mode="E3", timeout=timeout)
+
+
 def conditions(tier, seed):
     to = 40.0 if tier == "quick" else 240.0
     out = []
@@ -300,4 +357,5 @@ def conditions(tier, seed):
         for p in range(1, 9):
             out.append(make(p, 3, to))          # depth 3, budgeted: reported inconclusive when not exhausted
     out.append(make_fixed(to))
+    out.append(make_history(to))
     return out
